@@ -17,16 +17,26 @@ ASSUMPTIONS = ["values compared canonically: NaN/None/NaT equal, ints equal to i
 
 
 @st.composite
-def projection_case(draw, tier):
+def projection_case(draw, tier, self_join=None):
     case = draw(entries.entry_case(tier, entries=("join", "filter_tables"),
                                    missing=draw(st.sampled_from(["both", "left", "right",
-                                                                 "none"]))))
+                                                                 "none"])),
+                                   self_join=self_join))
     # force interesting attribute requests most of the time
     if draw(st.integers(0, 3)) > 0:
         for side, key in (("L", "l_out"), ("R", "r_out")):
             names = gen.col_names(case[side])
             k = draw(st.integers(1, min(5, len(names) + 1)))
             case[key] = draw(st.lists(st.sampled_from(names), min_size=k, max_size=k))
+    if case["R"].get("same_object") and draw(st.integers(0, 3)) > 0:
+        # self-join asking both sides for the same (>= 2 distinct) attributes in another order
+        names = gen.col_names(case["L"])
+        k = draw(st.integers(2, len(names)))
+        case["l_out"] = list(draw(st.permutations(names)))[:k]
+        how = draw(st.sampled_from(["reverse", "rotate", "swap"]))
+        lo = case["l_out"]
+        case["r_out"] = {"reverse": lo[::-1], "rotate": lo[1:] + lo[:1],
+                         "swap": lo[:-2] + [lo[-1], lo[-2]]}[how]
     if draw(st.booleans()):
         case["allow_missing"] = True
     if draw(st.booleans()):
@@ -269,4 +279,16 @@ class Wide(Component):
         ctx.label("wide:" + e)
 
 
-COMPONENTS = [Projection(), Wide()]
+class SelfJoin(Projection):
+    """Every case passes the very same DataFrame object as left and right table; half of them
+    request the same attributes on both sides in a different order."""
+    name = "selfjoin"
+
+    def examples(self, tier):
+        return 300 if tier == "quick" else 1000
+
+    def strategy(self, tier):
+        return projection_case(tier, self_join=True)
+
+
+COMPONENTS = [Projection(), Wide(), SelfJoin()]
